@@ -597,15 +597,19 @@ Definition file_prefix_of (p : string) : string :=
   string_of_list_ascii (rev (drop_us (rev (list_ascii_of_string p)))).
 
 (* ================================================================== the configuration *)
+Definition set_default (s : stream) : stream :=
+  mkStream true (s_clock s) (s_total s) (s_content s) (s_beg s) (s_end s) (s_disc s) (s_seq s)
+           (s_extra s) (s_id s) (s_ts s) (s_eh_extra s) (s_ctx s) (s_events s).
+
+(* `$default-stream: n`: the stream named n (names are unique in a mapping: the first one) is the default *)
+Fixpoint mark_first (n : string) (ss : list (string * stream)) : list (string * stream) :=
+  match ss with
+  | [] => []
+  | ns :: ss' => if String.eqb (fst ns) n then (fst ns, set_default (snd ns)) :: ss' else ns :: mark_first n ss'
+  end.
+
 Definition mark_named (name : option string) (ss : list (string * stream)) : list (string * stream) :=
-  map (fun ns => match name with
-                 | Some n => if String.eqb (fst ns) n
-                             then (fst ns, let s := snd ns in
-                                   mkStream true (s_clock s) (s_total s) (s_content s) (s_beg s) (s_end s) (s_disc s) (s_seq s)
-                                            (s_extra s) (s_id s) (s_ts s) (s_eh_extra s) (s_ctx s) (s_events s))
-                             else ns
-                 | None => ns
-                 end) ss.
+  match name with Some n => mark_first n ss | None => ss end.
 
 Definition rd_map (k : string) (l : entries) : option (option entries) :=
   match opt_of k l with None => Some None | Some (YMap m) => Some (Some m) | Some _ => None end.
